@@ -520,7 +520,7 @@ def has_nul(root):
 
 # ---- the oracle ----------------------------------------------------------------------------------
 STATS = {"parse: strict tree": 0, "parse: certainly ill-formed": 0, "parse: positions only": 0, "parse: xml.etree agreed": 0,
-         "rt: identity expected": 0, "rt: positions only": 0, "tostr": 0, "copy": 0, "esc": 0, "unesc": 0}
+         "rt: identity expected": 0, "rt: positions only": 0, "tostr": 0, "copy": 0, "deep": 0, "esc": 0, "unesc": 0}
 
 
 def expect_parse(data, impl):
@@ -596,6 +596,26 @@ def ref_line(op, impl):
             b = Node(b"zz", dedup(a.attrs + [(b"k", b"v")]), a.children[1:] + [b"new"])
             c = Node(a.name, a.attrs, [])
             return f"cp {dump(a)} {dump(b)} {dump(c)}"
+        if w[0] == "deep" and len(w) == 3 and w[2].isdigit():
+            a = parse_spec(w[1])
+            if a is None:
+                return "bad-op"
+            STATS["deep"] += 1
+            for n in walk(a):
+                n.attrs = dedup(n.attrs)
+            src = dump(a)
+            first = a.children[0] if a.children else None
+            wd = "n" if first is None else ("t" + first.hex() if isinstance(first, bytes) else dump(Node(b"yy", first.attrs, first.children)))
+            b = parse_spec(src)                       # an independent copy to write into
+            cur = b
+            for _ in range(int(w[2])):
+                nxt = next((c for c in cur.children if isinstance(c, Node)), None)
+                if nxt is None:
+                    break
+                cur = nxt
+            cur.name = b"zz"
+            cur.children.append(b"new")
+            return f"dp {src} {dump(b)} {wd}"
         if w[0] == "esc" and len(w) == 3 and w[1] in ("0", "1"):
             b = unhx(w[2])
             STATS["esc"] += 1
@@ -881,6 +901,17 @@ ESC_ALPHA = [bytes([c]) for c in b"&;#amplltgquosx109<>\"'\n\r -"]
 ESC_SMALL = [b"&", b";", b"#", b"1", b"a", b"l", b"t", b"<", b'"', b"\n", b" ", b"-"]
 
 
+def variant_repaired():
+    """the `deep` op runs Xml::Variant assignment and the cloning branch of the mutable toElement(); both are
+    defective on the pinned tree (D15: implicit operator= double free; D16: clone built in the shared block) and
+    repaired by fixes/rc/0002,0003.  The op is generated only against a header that carries the repairs."""
+    try:
+        h = (C.REPO / "include/nstd/Document/Xml.hpp").read_text()
+    except OSError:
+        return False
+    return "operator=(const Variant& other)" in h and "(Element*)(newData + 1)" in h
+
+
 def chunks(ops, n):
     return [ops[i:i + n] for i in range(0, len(ops), n)]
 
@@ -930,9 +961,19 @@ def histories_for(ctx):
             tops.append("tostr " + s)
         if i % 3 == 0:
             tops.append("copy " + s)
+    if variant_repaired():
+        # writes through copies that share Variant payloads (needs the repairs of D15/D16 in Xml.hpp)
+        for i in range(ntree // 4):
+            t = gen_tree(rng, 0, violate=(i % 5 == 4))
+            tops.append(f"deep {spec(t)} {rng.choice([0, 1, 1, 2, 2, 3, 5])}")
+        tops += ["deep (61,t78,(62,(63),(64)),(65)) 2", "deep (61,(62,(63,(64,t65)))) 3", "deep (61) 1", "deep (61,t78) 0",
+                 f"deep {spec(gen_chain(rng, 200))} 150"]
+    else:
+        ctx.notes.append("Xml.hpp does not carry the repairs of Xml::Variant::operator= / mutable toElement() (D15/D16, Rc area): "
+                         "`deep` ops (writes through copies sharing a payload) not generated")
     for _ in range(2 if quick else 20):
         tops.append("rt " + spec(gen_chain(rng, 200)))
-    counts["trees (rt/tostr/copy ops)"] = len(tops)
+    counts["trees (rt/tostr/copy/deep ops)"] = len(tops)
     hs += chunks(tops, 2)
 
     eops = []
